@@ -7,6 +7,29 @@ sys.path.insert(0, os.path.dirname(os.path.dirname(os.path.abspath(__file__))))
 from concurrent.futures import ProcessPoolExecutor
 from dalint.selftest import load_variants, run_variant
 
+TRACE = os.environ.get("REGRESS_TRACE")
+
+
+def traced(job):
+    """run_variant, with start / end lines (seconds, peak MB of the worker)
+    appended to $REGRESS_TRACE: what a worker was doing when it died."""
+    if not TRACE:
+        return run_variant(job)
+    import resource
+    import time
+    name = "%s/%s" % (job[0], job[2].get("name"))
+    with open(TRACE, "a") as f:
+        f.write("start %s pid=%d\n" % (name, os.getpid()))
+    t0 = time.time()
+    try:
+        return run_variant(job)
+    finally:
+        with open(TRACE, "a") as f:
+            f.write("end   %s %.1fs %dMB\n" % (
+                name, time.time() - t0, resource.getrusage(
+                    resource.RUSAGE_SELF).ru_maxrss // 1024))
+
+
 pids = sys.argv[1:] or ["C%02d" % i for i in range(1, 21)]
 jobs = []
 for pid in pids:
@@ -14,7 +37,7 @@ for pid in pids:
         jobs.append((pid, "/repo", v))
 n = bad = 0
 with ProcessPoolExecutor(max_workers=16) as ex:
-    for (name, kind, verdict, rules, msg) in ex.map(run_variant, jobs,
+    for (name, kind, verdict, rules, msg) in ex.map(traced, jobs,
                                                     chunksize=2):
         n += 1
         good = (kind == "mutant" and verdict == "fired") or (
